@@ -59,6 +59,7 @@ type vxC15Case struct {
 	TSMode     string  `json:"ts_mode"` // default | off | explicit
 	TS         int64   `json:"ts"`
 	Payload    bool    `json:"payload"` // custom payload (v4+)
+	Spec       bool    `json:"spec"`    // idempotent query with a speculative-execution policy (never fires: 10 s delay) - the executor's other route
 	Fault      string  `json:"fault"`   // "" | error | close | unprepared
 	FaultAt    int     `json:"fault_at"`
 	ErrCode    int     `json:"err_code"`
@@ -149,6 +150,7 @@ func vxC15Draw(t *rapid.T, manual bool) *vxC15Case {
 		c.TS = int64(rapid.IntRange(1, 1<<40).Draw(t, "ts"))
 	}
 	c.Payload = c.Proto >= 4 && rapid.IntRange(0, 3).Draw(t, "payload") == 0
+	c.Spec = rapid.IntRange(0, 3).Draw(t, "spec") == 0
 	faults := []string{"", "", "", "error", "close"}
 	if c.Prepared {
 		faults = append(faults, "unprepared")
@@ -634,6 +636,9 @@ func (c *vxC15Case) vxQuery(s *Session) *Query {
 	}
 	if c.QryNoSkip {
 		q.NoSkipMetadata()
+	}
+	if c.Spec {
+		q.Idempotent(true).SetSpeculativeExecutionPolicy(&SimpleSpeculativeExecution{NumAttempts: 1, TimeoutDelay: 10 * time.Second})
 	}
 	switch c.TSMode {
 	case "off":
